@@ -407,3 +407,212 @@ class P(_PipeP):
         rows = case["rows"]
         for i in range(len(rows)):
             yield dict(case, rows=rows[:i] + rows[i + 1 :])
+
+
+# ---- which LIST the callers hand to the cutoff (round 5; harness/c17_lists.py, lean Model/C17Lists.lean):
+#   collect / collect_pipeline: ProteinScoringStrategy.collect_peptide_scores_per_protein for every shared-peptide setting
+#       (discard, razor, with_shared - built directly and from a custom method TOML, and inside get_protein_group_results);
+#   quant: the multi-file quantification entry points (FragPipe, Sage, MaxQuant, DIA-NN) followed by
+#       ProteinGroupsWriter.append_quant_columns, files in the given and in the reversed order.
+import c17_lists as _cl  # noqa: E402
+
+_WriterP = P
+
+
+class P(_WriterP):
+    collect_share = 0.10
+    collect_pipeline_share = 0.025
+    quant_share = 0.08
+    rule = _WriterP.rule + (
+        "; 10 % collect cases (3-7 proteins in groups, 2-9 peptides of which ~40 % are shared between 2-4 groups, dyadic PEPs, "
+        "NaN/inf scores, unknown proteins, decoys; discard / razor / with_shared strategies built directly or from a custom "
+        "method TOML; level chosen where one-copy-per-group would change the cutoff), 2.5 % whole get_protein_group_results runs "
+        "with a custom with_shared TOML (every collect call recorded), 8 % multi-file quantification cases (1-4 FragPipe psm.tsv / "
+        "Sage results / MaxQuant evidence / DIA-NN report files with disjoint PEP ranges, level chosen where a subset of the "
+        "files would change the cutoff; files also in reversed order)"
+    )
+    assumptions = _WriterP.assumptions + [
+        "the PEP of a FragPipe row is 1 - p + 1e-16 and of a Sage row 10**x in double arithmetic (format transforms, applied by "
+        "the harness with the same operations; C10 validates the parsers)",
+        "hashlib.md5 keys of the razor tie-break are supplied to the model by the harness",
+    ]
+
+    trusted_extra = list(getattr(_WriterP, "trusted_extra", [])) + [
+        "harness/c17_lists.py (generators of groupings / peptide lists / input files, wrappers that observe the list reaching "
+        "calc_post_err_prob_cutoff and the cutoff reaching the writer's columns, format transforms FragPipe 1-p+1e-16 and Sage 10**x, "
+        "helpers.remove_decoy_proteins_from_target_peptides re-stated for MaxQuant / DIA-NN rows)",
+    ]
+
+    @staticmethod
+    def _k(case):
+        return case.get("kind") if isinstance(case, dict) and case.get("kind") in _cl.KINDS else None
+
+    def gen_case(self, rng, tier):
+        r = rng.random()
+        if r < self.collect_share:
+            return _cl.gen_collect_case(rng)
+        if r < self.collect_share + self.collect_pipeline_share:
+            return _cl.gen_collect_pipeline_case(rng, tier)
+        if r < self.collect_share + self.collect_pipeline_share + self.quant_share:
+            return _cl.gen_quant_case(rng)
+        return super().gen_case(rng, tier)
+
+    def run_impl(self, case):
+        k = self._k(case)
+        if k == "collect":
+            return _cl.run_collect(case)
+        if k == "collect_pipeline":
+            return _cl.run_collect_pipeline(case)
+        if k == "quant":
+            return _cl.run_quant(case)
+        return super().run_impl(case)
+
+    def model_request(self, case, impl_out):
+        k = self._k(case)
+        if k is None:
+            return super().model_request(case, impl_out)
+        if k == "collect":
+            return _cl.collect_request(case["groups"], case["pil"], case["razor"], case["suppress"], "with_shared" in case["desc"], case["level"])
+        if k == "collect_pipeline":
+            reqs = [_cl.collect_request(c["groups"], c["pil"], case["shared"] == "razor", c["suppress"], "with_shared" in case["desc"], c["level"])
+                    for c in impl_out.get("calls", [])]
+            return reqs or None
+        return _cl.quant_request(case)
+
+    def _collect_pairs(self, case, impl_out, resp):
+        """[(impl view, model view)] of the recorded collect calls"""
+        if self._k(case) == "collect":
+            return [_cl.collect_views(case["groups"], case["pil"], impl_out, resp, unrat(case["level"]))]
+        resps = resp if isinstance(resp, list) else [resp]
+        return [_cl.collect_views(c["groups"], c["pil"], c, r, unrat(c["level"])) for c, r in zip(impl_out.get("calls", []), resps)]
+
+    def model_view(self, case, resp, impl_out):
+        k = self._k(case)
+        if k is None:
+            return super().model_view(case, resp, impl_out)
+        if k == "quant":
+            return _cl.quant_model_view(case, resp, impl_out)
+        return [mv for _iv, mv in self._collect_pairs(case, impl_out, resp)]
+
+    def impl_view(self, case, impl_out):
+        k = self._k(case)
+        if k is None:
+            return super().impl_view(case, impl_out)
+        if k == "quant":
+            return _cl.quant_impl_view(case, impl_out)
+        if k == "collect":
+            return [_cl.collect_views(case["groups"], case["pil"], impl_out, None, unrat(case["level"]))[0]]
+        return [_cl.collect_views(c["groups"], c["pil"], c, None, unrat(c["level"]))[0] for c in impl_out.get("calls", [])]
+
+    def oracle(self, case, impl_out):
+        k = self._k(case)
+        if k is None:
+            return super().oracle(case, impl_out)
+        if not isinstance(impl_out, dict):
+            return "no result: %r" % (impl_out,)
+        if k == "quant":
+            return _cl.quant_oracle(case, impl_out)
+        if k == "collect":
+            o = _cl.collect_oracle(impl_out, unrat(case["level"]), "%s%s (%s): " % (case["desc"], " razor" if case["razor"] else "", case["via"]))
+            if o is None and "err" not in impl_out and impl_out["flags"] != ["with_shared" in case["desc"], bool(case["razor"])]:
+                return "strategy flags (use_shared_peptides, use_razor) = %r for score type %r" % (impl_out["flags"], case["desc"])
+            return o
+        for i, c in enumerate(impl_out.get("calls", [])):
+            if unrat(c["level"]) != unrat(case["level"]):
+                return "collect call %d was given the level %r, the PSM-level cutoff of the run is %r" % (i, float(unrat(c["level"])), float(unrat(case["level"])))
+            o = _cl.collect_oracle(c, unrat(case["level"]), "%s/%s grouping=%s, collect call %d: " % (case["desc"], case["shared"], case["grouping"], i))
+            if o:
+                return o
+        return None
+
+    def nontrivial(self, case, impl_out):
+        k = self._k(case)
+        if k is None:
+            return super().nontrivial(case, impl_out)
+        if not isinstance(impl_out, dict):
+            return False
+        if k == "quant":
+            return len(_cl.quant_expected(case)) >= 2
+        calls = [impl_out] if k == "collect" else impl_out.get("calls", [])
+        return any("evidence" in c and len(_cl.evidence_peps(c["evidence"])[0]) >= 2 for c in calls)
+
+    def features(self, case, impl_out):
+        k = self._k(case)
+        if k is None:
+            return super().features(case, impl_out)
+        f = ["kind=" + k]
+        if not isinstance(impl_out, dict):
+            return f
+        if k == "quant":
+            f.append("quant:" + case["format"])
+            f.append("quant:files=%d" % len(case["files"]))
+            f.append("quant:discard_shared" if case["discard"] else "quant:use_shared")
+            if case.get("second") and case["format"] in ("fragpipe", "sage"):
+                f.append("quant:with_intensity_file")
+            fin, level = _cl.quant_expected(case), unrat(case["level"])
+            want = _cl.prop_cutoff(fin, level)
+            subs = [_cl.quant_expected(case, [x]) for x in case["files"]]
+            if len(subs) > 1 and any(_cl.prop_cutoff(s_, level) != want for s_ in subs):
+                f.append("quant:some_single_file_differs")
+            if len(subs) > 1 and _cl.prop_cutoff(subs[-1], level) != want:
+                f.append("quant:last_file_alone_differs")
+            if any("nan" in o for o in [impl_out.get("returned", [])]):
+                f.append("quant:has_mbr")
+            f.append("cutoff=1" if want == 1 else "cutoff=crossing")
+            if _cl.near_tie(fin, level):
+                f.append("near_tie_skipped")
+            return f
+        calls = [impl_out] if k == "collect" else impl_out.get("calls", [])
+        f.append("collect:%s%s" % (case["desc"], " razor" if (case.get("razor") or case.get("shared") == "razor") else ""))
+        if k == "collect":
+            f.append("collect:via=" + case["via"])
+        else:
+            f.append("collect:calls=%d" % len(calls))
+        if "err" in impl_out:
+            f.append("collect:err=" + impl_out["err"])
+        for c in calls:
+            if "evidence" not in c:
+                continue
+            cnt = {}
+            for ev in c["evidence"]:
+                for s_, pep, pr in ev:
+                    if not _cl.is_decoy(pr) and s_ != "nan":
+                        cnt[pep] = cnt.get(pep, 0) + 1
+            m = max(cnt.values(), default=0)
+            if m > 1:
+                f.append("collect:target_peptide_in_%s_groups" % (m if m < 4 else "4+"))
+                fin, _o = _cl.evidence_peps(c["evidence"])
+                lv = unrat(case["level"])
+                per_group = [unrat(s_) for ev in c["evidence"] for s_, pep, pr in ev if not _cl.is_decoy(pr) and not isinstance(s_, str)]
+                if _cl.prop_cutoff(fin, lv) != _cl.prop_cutoff(per_group, lv):
+                    f.append("collect:per_group_copies_would_change_cutoff")
+                break
+        return f
+
+    def shrink(self, case):
+        k = self._k(case)
+        if k is None:
+            yield from super().shrink(case)
+            return
+        if k == "quant":
+            fs = case["files"]
+            for i in range(len(fs)):
+                if len(fs) > 1:
+                    yield dict(case, files=fs[:i] + fs[i + 1:])
+            for i, f_ in enumerate(fs):
+                for j in range(len(f_["rows"])):
+                    yield dict(case, files=fs[:i] + [dict(f_, rows=f_["rows"][:j] + f_["rows"][j + 1:])] + fs[i + 1:])
+            if case.get("second"):
+                yield dict(case, second=False)
+            return
+        pil = case["pil"]
+        for i in range(len(pil)):
+            yield dict(case, pil=pil[:i] + pil[i + 1:])
+        for i, (p, s_, pr) in enumerate(pil):
+            if len(pr) > 1 and k == "collect_pipeline":
+                for j in range(len(pr)):
+                    yield dict(case, pil=pil[:i] + [[p, s_, pr[:j] + pr[j + 1:]]] + pil[i + 1:])
+        if k == "collect":
+            gs = case["groups"]
+            for i in range(len(gs)):
+                yield dict(case, groups=gs[:i] + gs[i + 1:])
